@@ -45,6 +45,7 @@ CONSTANT StrFacts   \* record: token |-> facts about that text (see Fact below)
 (*   dec  : num the text parses to as Decimal, sp = "no" if it does not    *)
 (*   fr   : <<n,d>> as Fraction; <<0,0>> = ValueError; <<0,-1>> = ZeroDivisionError *)
 (*   date, time, dt : token of the canonical isoformat, "" if fromisoformat raises *)
+(*   path : token of str(PurePosixPath(text)) (normalised spelling)         *)
 (*   re   : "ok" or the name of the exception class re.compile raises      *)
 (*   len  : number of characters / bytes                                   *)
 Fact(tok) == StrFacts[tok]
